@@ -4,17 +4,18 @@ import (
 	"bufio"
 	"encoding/binary"
 	"fmt"
+	"strings"
 
 	"verif/harness/core"
 
 	"github.com/Chocapikk/pgread/pgdump"
 )
 
-// namesOf runs 256 crafted 24-byte records (info = 0..255, the given rmid) on one WAL page through
-// ParseWALFile and returns the names the code attaches to them.
-func namesOf(rmid int) (string, [256]string) {
+// namesOf runs 256 crafted 24-byte records (info = 0..255, the given rmid) on one WAL page with the given page magic
+// through ParseWALFile and returns the names the code attaches to them.
+func namesOf(magic uint16, rmid int) (string, [256]string) {
 	page := make([]byte, 8192)
-	binary.LittleEndian.PutUint16(page[0:], pgdump.WAL_MAGIC_16)
+	binary.LittleEndian.PutUint16(page[0:], magic)
 	binary.LittleEndian.PutUint16(page[2:], pgdump.XLP_LONG_HEADER)
 	binary.LittleEndian.PutUint32(page[4:], 1)
 	binary.LittleEndian.PutUint32(page[32:], 16<<20)
@@ -27,7 +28,7 @@ func namesOf(rmid int) (string, [256]string) {
 	}
 	rs, err := pgdump.ParseWALFile(page)
 	if err != nil || len(rs) != 256 {
-		panic(fmt.Sprintf("tables: crafted page for rmid %d gave %d records (%v)", rmid, len(rs), err))
+		panic(fmt.Sprintf("tables: crafted page (magic %04X) for rmid %d gave %d records (%v)", magic, rmid, len(rs), err))
 	}
 	var ops [256]string
 	for i, r := range rs {
@@ -39,50 +40,93 @@ func namesOf(rmid int) (string, [256]string) {
 	return rs[0].RMName, ops
 }
 
-func init() {
-	// graphs of rmgrName / operationName over all 256 x 256 (rmid, info) pairs, by execution.
-	// Emitted: the pairs whose name is not the default pattern (RM_<n> / op_0x<XX>), run-length
-	// coded over info; the default rule itself is in Model/Wal.lean and checked here for every other pair.
-	core.RegisterTable(func(out *bufio.Writer) {
-		var rmLines, opLines []string
-		for rmid := 0; rmid < 256; rmid++ {
-			rm, ops := namesOf(rmid)
-			if rm != fmt.Sprintf("RM_%d", rmid) {
-				rmLines = append(rmLines, fmt.Sprintf("(%d, %q)", rmid, rm))
+// graph of the names over all 256 x 256 (rmid, info) pairs on pages with the given magic
+type nameGraph struct {
+	rm  [256]string
+	ops [256][256]string
+}
+
+func graphOf(magic uint16) *nameGraph {
+	g := &nameGraph{}
+	for rmid := 0; rmid < 256; rmid++ {
+		g.rm[rmid], g.ops[rmid] = namesOf(magic, rmid)
+	}
+	return g
+}
+
+// opCases: per resource manager, the info ranges whose name is not the default pattern op_0x<XX>, run-length coded
+// over info, as the cases of a Lean function `rmid ↦ list of (infoLo, infoHi, name)`
+func opCases(g *nameGraph) []string {
+	var cases []string
+	for rmid := 0; rmid < 256; rmid++ {
+		ops := g.ops[rmid]
+		var runs []string
+		for lo := 0; lo < 256; {
+			hi := lo
+			for hi+1 < 256 && ops[hi+1] == ops[lo] {
+				hi++
 			}
-			for lo := 0; lo < 256; {
-				hi := lo
-				for hi+1 < 256 && ops[hi+1] == ops[lo] {
-					hi++
-				}
-				if lo == hi && ops[lo] == fmt.Sprintf("op_0x%02X", lo) {
-					lo++
-					continue
-				}
-				if lo != hi && ops[lo] == fmt.Sprintf("op_0x%02X", lo) {
-					panic("tables: default-pattern name shared by two info bytes")
-				}
-				opLines = append(opLines, fmt.Sprintf("(%d, %d, %d, %q)", rmid, lo, hi, ops[lo]))
-				lo = hi + 1
+			if lo == hi && ops[lo] == fmt.Sprintf("op_0x%02X", lo) {
+				lo++
+				continue
+			}
+			if lo != hi && ops[lo] == fmt.Sprintf("op_0x%02X", lo) {
+				panic("tables: default-pattern name shared by two info bytes")
+			}
+			runs = append(runs, fmt.Sprintf("(%d, %d, %q)", lo, hi, ops[lo]))
+			lo = hi + 1
+		}
+		if len(runs) > 0 {
+			cases = append(cases, fmt.Sprintf("  | %d => [%s]\n", rmid, strings.Join(runs, ", ")))
+		}
+	}
+	return cases
+}
+
+func writeList(out *bufio.Writer, lines []string) {
+	for i, l := range lines {
+		if i > 0 {
+			out.WriteString(",\n  ")
+		}
+		out.WriteString(l)
+	}
+	out.WriteString("]\n")
+}
+
+func init() {
+	// graphs of rmgrName / operationNameFor over all 256 x 256 (rmid, info) pairs, by execution, for the page magics
+	// of PostgreSQL 13, 14 and 16 (the three vocabularies of operationNameFor: Model/Wal.lean `opClass`); the graphs of
+	// 12 and 15 are checked here to be those of 13 and 16, and rmgrName not to depend on the magic.
+	// Emitted: the pairs whose name is not the default pattern (RM_<n> / op_0x<XX>), run-length coded over info; the
+	// default rule itself is in Model/Wal.lean and checked here for every other pair.
+	core.RegisterTable(func(out *bufio.Writer) {
+		g12, g13, g14 := graphOf(pgdump.WAL_MAGIC_12), graphOf(pgdump.WAL_MAGIC_13), graphOf(pgdump.WAL_MAGIC_14)
+		g15, g16 := graphOf(pgdump.WAL_MAGIC_15), graphOf(pgdump.WAL_MAGIC_16)
+		if g12.ops != g13.ops || g15.ops != g16.ops {
+			panic("tables: operation names differ between the pages of 12 and 13, or of 15 and 16")
+		}
+		if g12.rm != g16.rm || g13.rm != g16.rm || g14.rm != g16.rm || g15.rm != g16.rm {
+			panic("tables: resource-manager names depend on the page magic")
+		}
+		var rmLines []string
+		for rmid := 0; rmid < 256; rmid++ {
+			if g16.rm[rmid] != fmt.Sprintf("RM_%d", rmid) {
+				rmLines = append(rmLines, fmt.Sprintf("(%d, %q)", rmid, g16.rm[rmid]))
 			}
 		}
 		out.WriteString("/-- rmgrName: (rmid, name) for every rmid whose name is not `RM_<rmid>` -/\n")
 		out.WriteString("def rmNames : List (Nat × String) := [\n  ")
-		for i, l := range rmLines {
-			if i > 0 {
-				out.WriteString(",\n  ")
+		writeList(out, rmLines)
+		for _, v := range []struct {
+			name string
+			g    *nameGraph
+		}{{"13", g13}, {"14", g14}, {"16", g16}} {
+			out.WriteString("/-- operationNameFor on a page of PostgreSQL " + v.name + ": rmid ↦ (infoLo, infoHi, name): every info in [lo, hi] gets `name`; all other pairs get `op_0x<XX>` -/\n")
+			out.WriteString("def opRuns" + v.name + " : Nat → List (Nat × Nat × String)\n")
+			for _, c := range opCases(v.g) {
+				out.WriteString(c)
 			}
-			out.WriteString(l)
+			out.WriteString("  | _ => []\n")
 		}
-		out.WriteString("]\n")
-		out.WriteString("/-- operationName: (rmid, infoLo, infoHi, name): every info in [lo, hi] gets `name`; all other pairs get `op_0x<XX>` -/\n")
-		out.WriteString("def opRuns : List (Nat × Nat × Nat × String) := [\n  ")
-		for i, l := range opLines {
-			if i > 0 {
-				out.WriteString(",\n  ")
-			}
-			out.WriteString(l)
-		}
-		out.WriteString("]\n")
 	})
 }
